@@ -104,8 +104,31 @@ def multiDesignH (j : Json) : R Json := do
     | none => return jObj (base ++ [("error", jStr "ConfigurationError")])
     | some d => return jObj (base ++ [("picks", jList jStr d.picks), ("candidates", jList jStr d.candidates)])
 
+def getTypedAmp (j : Json) : R (BandTarget Float × String) := do
+  return (← getBT j, ← fStr j "own")
+
+/-- a user-typed Multiband_amplifier: load check and design -/
+def typedDesignH (j : Json) : R Json := do
+  let lib ← fList getSpec j "lib"
+  let tv ← fStr j "type_variety"
+  let listed ← fList getStr j "listed"
+  if !typedLoadOk lib tv listed then return jObj [("load_error", jStr "ConfigurationError")]
+  let amps ← fList getTypedAmp j "amps"
+  let ext ← fF j "ext"
+  let ok ← fBool j "raman_allowed"
+  let members := ((lookup lib tv).bind (fun e => e.multiBand)).getD []
+  let bands := amps.map (fun a =>
+    let lib' := selectionLibrary lib (bandRestrictions lib members a.1.band)
+    let acc := acceptable (edfaList lib' a.1.gain a.1.power ext) (ramanList lib' ok a.1.gain a.1.power ext)
+    jObj [("pick", jOpt jStr (typedPick lib ext ok members a)), ("own", jStr a.2),
+          ("acceptable", jList jCand (acc.getD []))])
+  let base := [("bands", Json.arr bands.toArray)]
+  match typedDesign lib ext tv ok amps with
+  | none => return jObj (base ++ [("error", jStr "ConfigurationError")])
+  | some d => return jObj (base ++ [("picks", jList jStr d.picks), ("candidates", jList jStr d.candidates)])
+
 def handlers : List (String × Handler) :=
   [("c10.restrictions", restrictionsH), ("c10.raman", ramanH), ("c10.select", selectH), ("c10.preselect", preselectH),
-   ("c10.multidesign", multiDesignH)]
+   ("c10.multidesign", multiDesignH), ("c10.typeddesign", typedDesignH)]
 
 end Gnpy.Drv.C10
